@@ -118,6 +118,8 @@ _JIT = {}
 
 def _fr(x):
     from fractions import Fraction as F
+    if x[1] == 0:       # [1,0] = +inf, [-1,0] = -inf, [0,0] = NaN
+        return float("inf") if x[0] > 0 else (float("-inf") if x[0] < 0 else float("nan"))
     return float(F(x[0], x[1]))
 
 
@@ -533,7 +535,9 @@ def _category_object(cls):
         return mk([0, 1])()
     return mk({"codes2": [0, 1], "codes3": [0, 1, 2], "codes1": [0], "floats": [0.0, 1.0, 2.0], "bools": [False, True],
                "gap": [0, 2], "permuted": [1, 0], "dup": [0, 0], "from1": [1, 2], "negative": [-1, 0], "half": [0, 0.5, 1],
-               "nonnum": [0, "a"]}[cls])
+               "nonnum": [0, "a"], "codes4": [0, 1, 2, 3], "codes5": [0, 1, 2, 3, 4], "half_in": [0, 0.5, 2], "frac_in": [0, 1, 2.5, 3],
+               "nan_in": [0, float("nan"), 2], "swap_in": [0, 2, 1, 3], "dup_in": [0, 1, 1, 3], "skip_in": [0, 1, 3, 4],
+               "inf_end": [0, 1, float("inf")]}[cls])
 
 
 def run_dgrid(c):
@@ -666,16 +670,35 @@ def run_lifecycle(c):  # noqa: C901, PLR0912, PLR0915
         def mk_grids():
             g = {v["name"]: MDL.build_grid(v) for v in m["vars"]}
             if "R8" in rules:
-                k = rng.randrange(4)
                 name = rng.choice(list(g))
-                if k == 0:
-                    g[name] = LinspaceGrid(start=1, stop=0, n_points=3)
-                elif k == 1:
-                    g[name] = LinspaceGrid(start=0, stop=1, n_points=0)
-                elif k == 2:
-                    g[name] = lcm.LogspaceGrid(start=0, stop="1", n_points=3)
-                else:
-                    g[name] = lcm.DiscreteGrid(object)   # not a dataclass
+                # one of the invalid grid specifications the documentation rules out (both constructors, every argument:
+                # wrong order, wrong type -- also types that cannot even be compared --, non-finite, too few points, not a
+                # category class)
+                bad = [
+                    lambda: LinspaceGrid(start=1, stop=0, n_points=3),
+                    lambda: LinspaceGrid(start=0, stop=1, n_points=0),
+                    lambda: lcm.LogspaceGrid(start=0, stop="1", n_points=3),
+                    lambda: lcm.DiscreteGrid(object),   # not a dataclass
+                    lambda: lcm.LogspaceGrid(start="1", stop=2, n_points=3),
+                    lambda: lcm.LogspaceGrid(start=None, stop=2, n_points=3),
+                    lambda: lcm.LogspaceGrid(start=[1], stop=2, n_points=3),
+                    lambda: lcm.LogspaceGrid(start=1 + 2j, stop=2, n_points=3),
+                    lambda: lcm.LogspaceGrid(start=1, stop=None, n_points=3),
+                    lambda: LinspaceGrid(start="0", stop=1, n_points=3),
+                    lambda: LinspaceGrid(start=None, stop=1, n_points=3),
+                    lambda: LinspaceGrid(start=0, stop=[1], n_points=3),
+                    lambda: LinspaceGrid(start=0, stop=1, n_points="3"),
+                    lambda: LinspaceGrid(start=0, stop=1, n_points=None),
+                    lambda: LinspaceGrid(start=0, stop=1, n_points=2.5),
+                    lambda: lcm.LogspaceGrid(start=1, stop=2, n_points=-1),
+                    lambda: LinspaceGrid(start=2, stop=2, n_points=3),
+                    lambda: lcm.LogspaceGrid(start=-1, stop=2, n_points=3),
+                    lambda: LinspaceGrid(start=float("nan"), stop=1, n_points=3),
+                    lambda: lcm.LogspaceGrid(start=1, stop=float("inf"), n_points=3),
+                    lambda: lcm.DiscreteGrid(None),
+                ]
+                k = rng.randrange(4) if c.get("variant", 0) % 3 == 0 else rng.randrange(len(bad))
+                g[name] = bad[k]()
             return g
         grids = stage("grid", mk_grids)
 
